@@ -67,18 +67,34 @@ func c16R1(p *core.Prog, r *core.Report) {
 		pos := ""
 		total := 0
 		ex := core.NewExplorer(p, core.Hooks{
+			Track: func(x *core.X, a core.Atom) bool { return strings.Contains(a.String(), "\"rewrite.aof\"") },
 			Instr: func(x *core.X) {
 				if !x.Top() {
 					return
 				}
+				recordVarargs(x)
 				if isOsCall(x.Ins, "Rename") {
-					a := argCanon(x, x.Ins, 0)
-					if strings.Contains(a, "rewrite.aof.tmp") && !strings.Contains(a, ".dat") {
+					a := pathArg(x, x.Ins, 0)
+					if strings.Contains(a, "\"rewrite.aof.tmp\"") {
 						x.Set("published", "1")
 					}
 				}
 				if isOsCall(x.Ins, "Remove") {
 					total++
+					if x.Get("published") == "1" {
+						// after publishing: a removed name must not be the published one
+						a := core.Plain(pathArg(x, x.Ins, 0))
+						literal := strings.Contains(a, "\"") && !strings.Contains(a, "rewrite.aof\"") // a constant other name
+						guarded := false
+						for h := range x.St.Hist {
+							if strings.HasSuffix(h, " != \"rewrite.aof\"") || strings.HasPrefix(h, "\"rewrite.aof\" != ") {
+								guarded = true
+							}
+						}
+						if !literal && !guarded && !strings.Contains(a, "Sprintf(") {
+							r.Violate(rule, "server.(*Aof).clearRewriteAofFiles: retire after publish", x.Pos(), "after rewrite.aof.tmp was renamed into place an input is removed whose name is not shown to differ from rewrite.aof (the input list contains the previous snapshot): the snapshot just published is deleted, the next restart recovers nothing from it", x.St.Trace)
+						}
+					}
 					if x.Get("published") != "1" {
 						k := siteKey(p, x.Ins)
 						dup := false
@@ -545,4 +561,52 @@ func logFileOrderRule(p *core.Prog, r *core.Report, rule string) {
 			r.Hold(rule, name+": log file list order", p.Pos(fn.Pos()), "snapshot first")
 		}
 	}
+}
+
+// recordVarargs remembers, per path, what is stored into the argument arrays
+// of variadic calls (filepath.Join, fmt.Sprintf), so that pathArg can show the
+// components of a joined path.
+func recordVarargs(x *core.X) {
+	st, ok := x.Ins.(*ssa.Store)
+	if !ok {
+		return
+	}
+	ia, ok := st.Addr.(*ssa.IndexAddr)
+	if !ok {
+		return
+	}
+	al, ok := ia.X.(*ssa.Alloc)
+	if !ok || al.Comment != "varargs" {
+		return
+	}
+	if c, ok := ia.Index.(*ssa.Const); ok && c.Value != nil {
+		x.Set("va:"+x.Fr.ID+":"+al.Name()+":"+c.Value.ExactString(), x.Canon(st.Val).S)
+	}
+}
+
+// pathArg renders argument i of a call; a filepath.Join(...) argument is shown
+// with its recorded components.
+func pathArg(x *core.X, ins ssa.Instruction, i int) string {
+	args := core.CallArgs(ins)
+	if i >= len(args) {
+		return ""
+	}
+	if c, ok := args[i].(*ssa.Call); ok {
+		if callee := c.Common().StaticCallee(); callee != nil && callee.Name() == "Join" && len(c.Common().Args) == 1 {
+			if sl, ok := c.Common().Args[0].(*ssa.Slice); ok {
+				if al, ok := sl.X.(*ssa.Alloc); ok {
+					var parts []string
+					for k := 0; k < 8; k++ {
+						v := x.Get(fmt.Sprintf("va:%s:%s:%d", x.Fr.ID, al.Name(), k))
+						if v == "" {
+							break
+						}
+						parts = append(parts, v)
+					}
+					return "Join(" + strings.Join(parts, ",") + ")"
+				}
+			}
+		}
+	}
+	return x.Canon(args[i]).S
 }
